@@ -368,6 +368,50 @@ Proof.
   exists evs. split; [exact (observe_reach _ _ _ _ He)|exact He].
 Qed.
 
+(* ------------------------------------- how a probe asks; what its client sees *)
+
+Lemma serve_probe s r : serve s r = probe s.
+Proof. unfold serve, ready_ops, probe. destruct (waiter s); reflexivity. Qed.
+
+(* the answer is a function of the startup state only: whatever method, query,
+   headers, body, protocol version and connection a probe uses, its client reads
+   [probe s]; so the statements about [probe] hold for every way of asking *)
+Theorem answer_of_state_only evs s r :
+  su_reach evs = Some s ->
+  serve s r = probe s /\
+  (forall r', serve s r' = serve s r) /\
+  (serve s r = 200%N -> finished s = true /\ Forall ended (procs s)) /\
+  ((finished s = false \/ exists p, running s p) -> serve s r = 425%N).
+Proof.
+  intros H. split; [apply serve_probe|]. split; [|split].
+  - intros r'. rewrite !serve_probe. reflexivity.
+  - rewrite serve_probe. intros H2. exact (sound_200 evs s H H2).
+  - rewrite serve_probe. intros H2. exact (otherwise_425 evs s H H2).
+Qed.
+
+(* a handler that writes the document before the status says 200 to every
+   request it treats that way while a process is still running - and is
+   indistinguishable from the real one for every other request *)
+Theorem body_first_refuted (wants : request -> bool) r :
+  wants r = true ->
+  exists evs s, su_reach evs = Some s /\ finished s = false /\ (exists p, running s p) /\
+                probe s = 425%N /\ client_status (body_first_ops wants s r) = 200%N.
+Proof.
+  intros W. exists [Add 1%N]. eexists. split; [vm_compute; reflexivity|].
+  split; [reflexivity|]. split; [exists 1%N; left; reflexivity|]. split; [reflexivity|].
+  unfold body_first_ops. rewrite W. reflexivity.
+Qed.
+
+Lemma body_first_unnoticed (wants : request -> bool) s r :
+  wants r = false -> client_status (body_first_ops wants s r) = serve s r.
+Proof. intros W. unfold body_first_ops. rewrite W. reflexivity. Qed.
+
+Example nv_serve :
+  let r := mkRequest (B "POST") (B "format=json") [(B "Accept", B "application/json")] (B "{}") true true in
+  option_map (fun s => serve s r) (su_reach [Add 1%N; Finish; Probe]) = Some 425%N /\
+  option_map (fun s => serve s r) (su_reach [Add 1%N; Finish; End 1%N ok; WaiterStep]) = Some 200%N.
+Proof. vm_compute. split; reflexivity. Qed.
+
 (* ------------------------------------------------------------ non-vacuity *)
 (* three processes, the second to end fails with 7, the third with 9 *)
 Definition nv_hist : list event :=
